@@ -346,6 +346,12 @@ func (app *App) tryLeaveMaintenance() appState {
 		app.removeMaintenanceFile()
 		return stateManager
 	} else {
+		// the lock holder has to leave first: while the record still says that mysync is paused
+		// (a leave that was asked for may be refused, e.g. with two masters) stay paused too
+		maintenance, err := app.GetMaintenance()
+		if err == nil && maintenance != nil && maintenance.MySyncPaused && !maintenance.IsLightMode() {
+			return stateMaintenance
+		}
 		app.removeMaintenanceFile()
 		return stateCandidate
 	}
